@@ -62,8 +62,34 @@ def run(vh, st, tcfg, sdir, seed, goenv):
         owner = st["event_owner"].get(ev.get("ev"), st["default_owner"])
         if ev.get("ev") == "msg" and st.get("msg_owner"):
             owner = st["msg_owner"].get(ev.get("m"), owner)
+        diag = None
+        if st.get("diag_owner"):
+            # second run: the rejected line is consumed without comparison and the specification prints which logged components it does not reproduce
+            ddir = os.path.join(sdir, "diag")
+            os.makedirs(ddir, exist_ok=True)
+            for f in os.listdir(sdir):
+                if f.endswith(".tla") or f.endswith(".cfg") or f == "trace.ndjson":
+                    shutil.copy(os.path.join(sdir, f), os.path.join(ddir, f))
+            c = open(os.path.join(ddir, cfg)).read().replace("DiagLine = 0", "DiagLine = %d" % line)
+            open(os.path.join(ddir, cfg), "w").write(c)
+            rd = _run_tlc(ddir, module, cfg, tcfg.get("timeout", 900))
+            for ln in open(rd.out_path, errors="replace"):
+                if "diag" in ln[:12]:
+                    try:
+                        d = json.loads(ln)
+                        diag = (json.loads(d) if isinstance(d, str) else d)["diag"]
+                    except Exception:
+                        continue
+                    break
+            shutil.rmtree(ddir, ignore_errors=True)
+            if diag:
+                wrong = [k for k in diag if not diag[k]]
+                for k, o in st["diag_owner"]:
+                    if k in wrong:
+                        owner = o or owner
+                        break
         findings.append({"prop": owner, "kind": "mismatch", "sig": "trace.%s.rejected.%s" % (st["name"], ev.get("m") or ev.get("ev")),
-                         "msg": "recorded real execution is not a behaviour of the specification: trace line %d cannot be explained" % line,
+                         "msg": "recorded real execution is not a behaviour of the specification: trace line %d cannot be explained%s" % (line, (" (the specification disagrees on: %s)" % ", ".join(sorted(k for k in diag if not diag[k]))) if diag else ""),
                          "path": prev + [ev], "expected": None, "observed": ev})
     elif not r.ok:
         info["broken"] = "TLC failed on the trace specification: %s" % ((r.error or "")[:2000])
